@@ -16,6 +16,8 @@ import (
 	"strings"
 	"time"
 
+	"golang.org/x/net/idna"
+
 	"github.com/nuetzliches/hookaido/internal/httpheader"
 	"github.com/nuetzliches/hookaido/internal/secrets"
 )
@@ -3157,7 +3159,25 @@ func parseEgressRule(raw string) (EgressRule, bool) {
 	if err != nil {
 		return EgressRule{}, false
 	}
+	// Deliveries are checked under the IDNA (punycode) form of the host,
+	// which is what net/http connects to.
+	if !isASCIIString(norm) {
+		ascii, err := idna.Lookup.ToASCII(norm)
+		if err != nil {
+			return EgressRule{}, false
+		}
+		norm = ascii
+	}
 	return EgressRule{Host: norm, Subdomains: subdomains}, true
+}
+
+func isASCIIString(s string) bool {
+	for i := 0; i < len(s); i++ {
+		if s[i] >= 0x80 {
+			return false
+		}
+	}
+	return true
 }
 
 func parseRemoteIPPrefix(raw string) (netip.Prefix, error) {
